@@ -9,6 +9,9 @@ D = os.path.join(vlib.SPEC, "pipeline")
 SETS = {
     "2diff": ('{"m1", "m2"}', "F2", "V2", {"m1": {"field": "name", "val": "n1"}, "m2": {"field": "tag", "val": "g2"}}),
     "2same": ('{"m1", "m2"}', "F2s", "V2", {"m1": {"field": "name", "val": "n1"}, "m2": {"field": "name", "val": "g2"}}),
+    "2noop": ('{"m1", "m2"}', "F2n", "V2", {"m1": {"field": "name", "val": "n1"}, "m2": {"field": "none", "val": "", "text": "mutate { v.A { id:$id ra:null } }"}}),
+    "3noop": ('{"m1", "m2", "m3"}', "F3n", "V3", {"m1": {"field": "name", "val": "n1"}, "m2": {"field": "none", "val": "", "text": "mutate { v.A { id:$id rb:null } }"},
+                                                   "m3": {"field": "tag", "val": "n3"}}),
     "3mix": ('{"m1", "m2", "m3"}', "F3", "V3", {"m1": {"field": "name", "val": "n1"}, "m2": {"field": "tag", "val": "g2"}, "m3": {"field": "name", "val": "n3"}}),
 }
 
@@ -28,9 +31,9 @@ def run(ctx, replay):
     else:
         scen = []
         n = 0
-        for key in (["2diff", "2same"] if quick else ["2diff", "2same", "3mix"]):
+        for key in (["2diff", "2same", "2noop"] if quick else ["2diff", "2same", "2noop", "3noop", "3mix"]):
             ctx.model_check(D, "MC_Pipeline", cfg(key, [], "GSpec", "INVARIANT Serializable\n"), "design_" + key)
-            ctx.expect_counterexample(D, "MC_Pipeline", cfg(key, ["StaleSnapshotWrittenBack"], "GSpec", "INVARIANT Serializable\n"), "cex_" + key)
+            ctx.expect_counterexample(D, "MC_Pipeline", cfg(key, ["StaleSnapshotWrittenBack"] + (["NoopWritesSnapshot"] if "noop" in key else []), "GSpec", "INVARIANT Serializable\n"), "cex_" + key)
             hs = ctx.generate(D, "MC_Pipeline", cfg(key, ["StaleSnapshotWrittenBack"], "GSpec", "INVARIANT Emit\n"), "orders_" + key, workers=1, timeout=600)
             for h in hs:
                 n += 1
